@@ -303,6 +303,71 @@ def add_extrapolate_preprocessed(S):
         S.contract("profiles[extrapolate after %s]" % "+".join(n for n, on in (("reverse_current", rc), ("psi_divide_twopi", tp)) if on), FN_INIT, make_extrapolate_preprocessed_run(rc, tp), shape="3 profile points")
 
 
+def critical_block():
+    """Statements of TokamakEquilibrium.__init__ from the meshgrid before `find_critical` to
+    `self.psi_sep = [...]`, compiled as a function."""
+    from hypnotoad.cases import tokamak as T
+
+    fdef = ast.parse(textwrap.dedent(inspect.getsource(T.TokamakEquilibrium.__init__))).body[0]
+    start = end = None
+    for i, st in enumerate(fdef.body):
+        txt = ast.unparse(st)
+        if start is None and isinstance(st, ast.Assign) and "critical.find_critical" in txt:
+            start = i - 1 if i and "meshgrid" in ast.unparse(fdef.body[i - 1]) else i
+        if isinstance(st, ast.Assign) and txt.startswith("self.psi_sep ="):
+            end = i
+    if start is None or end is None or end < start:
+        raise LookupError("critical-point block not found")
+    args = ["self", "R1D", "Z1D", "psi2D", "psi_axis_gfile", "psi_bdry_gfile"]
+    f = ast.FunctionDef(name="_critical_block", args=ast.arguments(posonlyargs=[], args=[ast.arg(arg=a) for a in args], kwonlyargs=[], kw_defaults=[], defaults=[]), body=fdef.body[start : end + 1], decorator_list=[], type_params=[])
+    mod = ast.Module(body=[f], type_ignores=[])
+    ast.fix_missing_locations(mod)
+    loc = {}
+    exec(compile(mod, "<vc:TokamakEquilibrium.__init__[critical points]>", "exec"), T.__dict__, loc)
+    return loc["_critical_block"], end - start + 1
+
+
+def make_critical_run(reverse, with_gfile):
+    """psi_axis / o_point / psi_bdry / x_points / psi_sep are those find_critical returns first
+    (its ordering contract: C19); the consistency check against the g-file scalars refuses
+    differences above 1e-3 (sign-reversed together with the flux when reverse_current is set)."""
+
+    def run(ctx):
+        from hypnotoad.cases import tokamak as T
+
+        fn, n = critical_block()
+        O = [(ctx.real("Ro%d" % k), ctx.real("Zo%d" % k), ctx.real("Po%d" % k)) for k in range(2)]
+        X = [(ctx.real("Rx%d" % k), ctx.real("Zx%d" % k), ctx.real("Px%d" % k)) for k in range(2)]
+        ax, bd = (ctx.real("simagx"), ctx.real("sibdry")) if with_gfile else (None, None)
+        me = types.SimpleNamespace(user_options=types.SimpleNamespace(reverse_current=reverse, xpoint_refine_atol=1e-10, xpoint_refine_maxits=10))
+        raised = None
+        with patched((T.critical, "find_critical", lambda *a, **k: (list(O), list(X))), (T.warnings, "warn", lambda *a, **k: None)):
+            try:
+                fn(me, numpy.array([1.0, 2.0]), numpy.array([-1.0, 1.0]), numpy.zeros((2, 2)), ax, bd)
+            except ValueError as e:
+                raised = e
+        with spec_mode():
+            s = -1 if reverse else 1
+            if raised is None:
+                ctx.oblige(And(me.psi_axis == O[0][2], me.o_point.R == O[0][0], me.o_point.Z == O[0][1]), "psi_axis / o_point: the primary O-point")
+                ctx.oblige(And(me.psi_bdry == X[0][2], me.x_point.R == X[0][0], me.x_point.Z == X[0][1]), "psi_bdry: psi at the primary X-point")
+                ctx.oblige(TRUE(len(me.x_points) == 2 and len(me.psi_sep) == 2), "all X-points kept")
+                ctx.oblige(And(*[And(me.x_points[k].R == X[k][0], me.x_points[k].Z == X[k][1], me.psi_sep[k] == X[k][2]) for k in range(2)]), "x_points and psi_sep aligned, in find_critical's order")
+                if with_gfile:
+                    ctx.oblige(And(ab(O[0][2] - s * ax) <= 1.0e-3, ab(X[0][2] - s * bd) <= 1.0e-3), "accepted only if the g-file's simagx / sibdry agree with the computed values to 1e-3")
+            else:
+                ctx.oblige(TRUE(with_gfile), "refusal needs g-file scalars to compare with")
+                if with_gfile:
+                    ctx.oblige(Or(ab(O[0][2] - s * ax) > 1.0e-3, ab(X[0][2] - s * bd) > 1.0e-3), "refused only if simagx or sibdry differ from the computed values by more than 1e-3")
+        return me
+
+    return run
+
+
+def ab(x):
+    return ite(x >= 0, x, -x)
+
+
 def exp_arg(ctx, val, p0):
     """If val is syntactically p0*exp(a) for a registered exp application, return a."""
     t = z3.simplify(val.t)
@@ -419,6 +484,11 @@ def build(S):
         S.contract("profiles[extrapolate,psi decreasing]", FN_INIT, run_extrapolate(False), shape="4 profile points")
         S.contract("profiles[sign/2pi preprocessing]", FN_INIT, run_preprocess, shape="3 profile points, 2x2 psi")
         add_extrapolate_preprocessed(S)
+        _, nst = critical_block()
+        S.extraction.append(dict(function="TokamakEquilibrium.__init__[critical points]", sliced="%d statements (meshgrid, find_critical ... self.psi_sep) compiled as a function of (self, R1D, Z1D, psi2D, psi_axis_gfile, psi_bdry_gfile); nothing dropped" % nst))
+        for rev in (False, True):
+            for wg in (False, True):
+                S.contract("constructor[psi_axis, psi_bdry%s%s]" % (", reverse_current" if rev else "", ", g-file scalars" if wg else ""), FN_INIT, make_critical_run(rev, wg), expected_exceptions=(), shape="2 O-points, 2 X-points (symbolic), find_critical by contract")
         S.contract("fpol/fpolprime/pressure/Bt_axis", FN_FPP, run_profiles, shape="scalar")
         from . import C03_circular
 
